@@ -58,6 +58,17 @@ def scenario(rng):
         else:
             libs.append("(define-library (lib ren) (import (scheme base)) (export (rename ra rb) (rename rb ra) (rename rc rd) rboth) (begin (define ra 'was-a) (define rb 'was-b) (define rc 'was-c) (define (rboth) (list ra rb rc))))")
             have["ren"] = ["ra", "rb", "rd", "rboth"]
+    if rng.random() < 0.3:
+        # a chain of 3-8 facade libraries, each importing the previous one: the last one still drives the one counter instance
+        k = rng.randint(3, 8)
+        for i in range(1, k + 1):
+            prev = "(lib counter)" if i == 1 else "(lib hop%d)" % (i - 1)
+            call = "(next!)" if i == 1 else "(hop%d)" % (i - 1)
+            libs.append("(define-library (lib hop%d) (import (scheme base) %s) (export hop%d) (begin (define (hop%d) %s)))" % (i, prev, i, i, call))
+        have["hop%d" % k] = ["hop%d" % k]
+        hop = "hop%d" % k
+    else:
+        hop = None
     # the program's imports
     imports = ["(scheme base)"]
     avail = {}
@@ -116,7 +127,7 @@ def scenario(rng):
         c = rng.random()
         if c < 0.4:
             calls = []
-            for base, args in (("next!", ""), ("z:next!", ""), ("counter-next!", ""), ("z:counter-next!", ""), ("z:" + pk, ""), ("use1!", ""), ("use2!", ""), (pk, ""), ("double", " 3"), ("outer", " 7"), ("get-plus", " 20 5"), ("get-low", ""), ("rboth", "")):
+            for base, args in ((hop or "next!", ""), ("next!", ""), ("z:next!", ""), ("counter-next!", ""), ("z:counter-next!", ""), ("z:" + pk, ""), ("use1!", ""), ("use2!", ""), (pk, ""), ("double", " 3"), ("outer", " 7"), ("get-plus", " 20 5"), ("get-low", ""), ("rboth", "")):
                 if base in avail:
                     calls.append("(%s%s)" % (avail[base], args))
             if calls:
